@@ -279,7 +279,9 @@ def run_task(task):
                     raise Inconclusive("vacuity: assertion site reached with unsatisfiable path condition")
                 out['vacuity_witness'] = 1
             bad = None
-            for (cname, phi) in res.clauses:
+            for clause in res.clauses:
+                cname, phi = clause[0], clause[1]
+                strong = clause[2] if len(clause) > 2 else None    # optional: "violated by a visible margin" (preferred counterexamples)
                 out['clauses'] = out.get('clauses', 0) + 1
                 if not (phi is True or phi is False):
                     out['clauses_solver'] = out.get('clauses_solver', 0) + 1
@@ -291,7 +293,12 @@ def run_task(task):
                     negphi = z3.Not(t) if isinstance(t, z3.ExprRef) else z3.BoolVal(True)
                     nm = None
                     try:
-                        nm = _nice_model(eng, negphi, res.inputs)
+                        if strong is not None:
+                            st = strong.t if isinstance(strong, SB) else strong
+                            if isinstance(st, z3.ExprRef):
+                                nm = _nice_model(eng, st, res.inputs) or _extra_model(eng, [st])
+                        if nm is None:
+                            nm = _nice_model(eng, negphi, res.inputs)
                     except Exception:
                         nm = None
                     m2 = nm or m
@@ -350,7 +357,7 @@ def run_task(task):
                     out['samples'].append(dict(obligation=oblname, outcome=res.outcome, path=res.info,
                                                example_inputs=concretise(model, res.inputs),
                                                path_condition_size=len(eng.solver.assertions()),
-                                               clauses=[c for c, _ in res.clauses]))
+                                               clauses=[c[0] for c in res.clauses]))
                 except Exception:
                     pass
             if len(out['violations']) >= opts.get('max_violations', 3):
